@@ -2701,7 +2701,10 @@ def rename(
         levels[var]: levels[dvars.get(var, var)]
         for var in bdd.vars}
     cache = dict()
-    return _copy_bdd(u, dvars, bdd, bdd, cache)
+    # intermediate results are unreferenced, and
+    # the levels above have already been computed
+    with _SuspendedReordering(bdd):
+        return _copy_bdd(u, dvars, bdd, bdd, cache)
 
 
 def _assert_valid_rename(
